@@ -7,6 +7,10 @@ import (
 
 // parse and return tag and length, also the length of two parts
 func parseTagAndLength(bytes []byte) (r tagAndLen, off int, e error) {
+	if len(bytes) == 0 {
+		e = fmt.Errorf("no data")
+		return r, off, e
+	}
 	off++
 	r.class = int(bytes[0] >> 6)
 	r.constructed = (bytes[0] & 0x20) != 0
@@ -25,6 +29,10 @@ func parseTagAndLength(bytes []byte) (r tagAndLen, off int, e error) {
 			e = fmt.Errorf("tag number is too large")
 			return r, off, e
 		}
+		if bytes[off-1]&0x80 != 0 {
+			e = fmt.Errorf("truncated tag number")
+			return r, off, e
+		}
 	}
 
 	if off >= len(bytes) {
@@ -35,27 +43,34 @@ func parseTagAndLength(bytes []byte) (r tagAndLen, off int, e error) {
 		r.len = int64(bytes[off])
 		off++
 	} else {
-		len := int(bytes[off] & 0x7f)
-		// fmt.Println("len", len)
-		if len > 3 {
+		n := int(bytes[off] & 0x7f)
+		if n > 3 {
 			e = fmt.Errorf("length is too large")
 			return r, off, e
 		}
 		off++
+		if off+n > len(bytes) {
+			e = fmt.Errorf("truncated length octets")
+			return r, off, e
+		}
 		// length octets are an unsigned number
 		var val int64
-		for _, b := range bytes[off : off+len] {
+		for _, b := range bytes[off : off+n] {
 			val = val<<8 | int64(b)
 		}
 
 		r.len = int64(val)
-		off += len
+		off += n
 	}
 
 	return r, off, e
 }
 
 func parseBitString(bytes []byte) (r BitString, e error) {
+	if len(bytes) == 0 || bytes[0] > 7 || (len(bytes) == 1 && bytes[0] != 0) {
+		e = fmt.Errorf("malformed BIT STRING")
+		return r, e
+	}
 	r.BitLength = uint64((len(bytes)-1)*8 - int(bytes[0]))
 	r.Bytes = bytes[1:]
 	return
@@ -64,6 +79,10 @@ func parseBitString(bytes []byte) (r BitString, e error) {
 func parseInt64(bytes []byte) (r int64, e error) {
 	if len(bytes) > 8 {
 		e = fmt.Errorf("out of range of int64")
+		return r, e
+	}
+	if len(bytes) == 0 {
+		e = fmt.Errorf("INTEGER without contents")
 		return r, e
 	}
 
@@ -169,7 +188,7 @@ func ParseField(v reflect.Value, bytes []byte, params fieldParameters) error {
 		return nil
 	case EnumeratedType:
 		val, parse_err := parseInt64(bytes[talOff:])
-		if err != nil {
+		if parse_err != nil {
 			return parse_err
 		}
 
@@ -181,7 +200,10 @@ func ParseField(v reflect.Value, bytes []byte, params fieldParameters) error {
 	}
 	switch val := v; val.Kind() {
 	case reflect.Bool:
-		if parsedBool, parse_err := parseBool(bytes[talOff]); err != nil {
+		if int(talOff) >= len(bytes) {
+			return fmt.Errorf("BOOLEAN without contents")
+		}
+		if parsedBool, parse_err := parseBool(bytes[talOff]); parse_err != nil {
 			return parse_err
 		} else {
 			val.SetBool(parsedBool)
